@@ -1,8 +1,30 @@
 #!/bin/bash
-# Offline build of the whole harness (all check binaries) from files on disk.
+# Offline build of the harness from files on disk: every registered check binary, the per-build
+# evaluators of C19 and the Miri runner of C17 (warm caches so that quick checks are fast).
 set -u
-cd /verif/harness || exit 2
+cd /verif || exit 2
 export CARGO_NET_OFFLINE=true
 export RUSTFLAGS="--cfg dashu_verif"
+export CARGO_TERM_COLOR=never
 mkdir -p /verif/target /verif/evidence /verif/replays
-cargo build --release --bins 2>&1 | tail -5
+bins=$(python3 -c "
+import json
+m=json.load(open('/verif/MANIFEST.json'))
+print(' '.join('--bin '+c['property_id'].lower() for c in m['checks']))")
+(cd /verif/harness && cargo build --release $bins 2>&1 | tail -3) || exit 1
+# warm-ups (failures here are not fatal: the checks build what they need themselves)
+if echo "$bins" | grep -q c19; then
+  for cfg in "native-std-assert::" "native-std-noassert::noassert" "w32-std-assert:32:" "g64-std-assert:64:" "native-nostd-assert::nostd"; do
+    name=${cfg%%:*}; rest=${cfg#*:}; bits=${rest%%:*}; kind=${rest#*:}
+    flags="--cfg dashu_verif"; [ -n "$bits" ] && flags="$flags --cfg force_bits=\"$bits\""
+    extra=""; [ "$kind" = "nostd" ] && extra="--no-default-features"
+    ( if [ "$kind" = "noassert" ]; then export CARGO_PROFILE_RELEASE_DEBUG_ASSERTIONS=false CARGO_PROFILE_RELEASE_OVERFLOW_CHECKS=false; fi
+      RUSTFLAGS="$flags" cargo build --release --manifest-path /verif/harness/eval/Cargo.toml --target-dir /verif/target/c19/$name $extra >/dev/null 2>&1 ) &
+  done
+  wait
+fi
+if echo "$bins" | grep -q c17; then
+  echo '[]' > /verif/target/empty-histories.json
+  (cd /verif/miri && MIRIFLAGS="-Zmiri-disable-isolation" CARGO_TARGET_DIR=/verif/target/miri cargo +nightly miri run --quiet -- /verif/target/empty-histories.json >/dev/null 2>&1) || true
+fi
+echo "setup done"
